@@ -471,7 +471,8 @@ pub fn c02(tier: &str, seed: u64) {
       3 => g.range(13, if quick(tier) { 32 } else { 64 }) as u32,
       _ => g.range(2, 20) as u32,
     };
-    let m = { let n = g.range(8, 40) as usize; g.bytes(n) };
+    // measurements of every size class: short, around one cipher block (166), several blocks
+    let m = { let n = if case_i % 4 == 1 { *g.pick(&[150usize, 162, 163, 200, 327, 332, 500, 1000]) } else { g.range(8, 40) as usize }; g.bytes(n) };
     let e = g.blob(2);
     let clients: Vec<Client> = (0..t as usize).map(|_| make_client(&m, &e, t, gen_aux(&mut g), None)).collect();
     let shares: Vec<sta_rs::Share> = clients.iter().map(|c| c.msg.share.clone()).collect();
@@ -600,6 +601,15 @@ pub fn c02(tier: &str, seed: u64) {
           fail("secret_in_clear_in_report", &d(vec![("secret", name.to_string()), ("offset", off.to_string()), ("report", hex(&b))]));
         }
         stat("oracle.byte_scans");
+      }
+      // ... and no 16-byte PIECE of the measurement either (a cipher that skips part of the payload)
+      if m.len() >= 16 {
+        for w in (0..=m.len() - 16).step_by(if m.len() > 400 { 7 } else { 1 }).chain([m.len() - 16]) {
+          if let Some(off) = contains(&b, &m[w..w + 16]) {
+            fail("secret_in_clear_in_report", &d(vec![("secret", format!("measurement bytes {}..{}", w, w + 16)), ("offset", off.to_string()), ("measurement_len", m.len().to_string()), ("report_len", b.len().to_string())]));
+            break;
+          }
+        }
       }
     }
     // (E) the shares lie on a polynomial of exact degree t-1 with constant term K, whose
@@ -1008,6 +1018,16 @@ pub fn c04(tier: &str, seed: u64) {
       check_distinct(f, &e0, 3, &mut seen);
       check_distinct(&m0, f, 3, &mut seen);
     }
+  }
+  // epochs (and measurements) that are not text: bytes >= 0x80, truncated and over-long UTF-8 - every
+  // byte string is its own epoch
+  {
+    let fam: Vec<Vec<u8>> = vec![vec![200], vec![201], vec![0xff], vec![0xfe], vec![0xef, 0xbf, 0xbd], vec![0xe2], vec![0xe2, 0x82], vec![0xe2, 0x82, 0xac], b"week-\xfe".to_vec(), b"week-\xff".to_vec(), vec![0xc0, 0x80], vec![0x00], vec![0x80, 0x80]];
+    for f in &fam {
+      check_distinct(&m0, f, 3, &mut seen);
+      check_distinct(f, &e0, 3, &mut seen);
+    }
+    stat("oracle.C04.non_utf8_families");
   }
   stat("oracle.C04.related_by_padding_families");
   for l in 0..m0.len() {
